@@ -44,7 +44,7 @@ ASSUMPTIONS = [
 REQUIRED = {"stratum:locality": 20, "stratum:potential": 20, "route:text": 40, "route:api": 40,
             "checked:deriv": 100, "checked:deriv2": 60, "leaf:custom": 10, "leaf:table": 5,
             "mod:product": 10, "mod:pow": 5, "mod:trans": 10, "mod:spline": 5, "at_zero": 10,
-            "leafkind:units": 15, "mixed_ranges": 10, "mixed_modifier": 10, "stratum:table_slope": 10, "checked:table_slope": 200, "potential:near_origin": 10}
+            "leafkind:units": 15, "mixed_ranges": 10, "factor_exactly_zero": 5, "mixed_modifier": 10, "stratum:table_slope": 10, "checked:table_slope": 200, "potential:near_origin": 10}
 
 
 @st.composite
@@ -173,6 +173,32 @@ def _mixed_modifier_case(draw, pycallable=False):
             "pd": single(node), "rs": draw(st.lists(gen.fl(0.6, 8.0), min_size=5, max_size=7)), "mixed_mod": True}
 
 
+@st.composite
+def _zero_factor_case(draw, pycallable=False):
+    """a product one of whose factors is EXACTLY zero at a probe while its slope is not (a node of a polynomial,
+    the origin for c*r): (fg)' = f'g there, and for a double zero (fg)'' = f''g"""
+    r0 = draw(st.sampled_from([0.0, 0.0, 0.5, 1.0, 1.5, 2.0, 3.0]))
+    c = draw(st.sampled_from([1, 2, 0.5, -1.5, 3.0]))
+    shape = draw(st.sampled_from(["simple", "simple", "double"]))
+    if shape == "simple":
+        zero = {"k": "form", "name": "polynomial", "p": [-c * r0, c]}
+    else:
+        zero = {"k": "form", "name": "polynomial", "p": [c * r0 * r0, -2 * c * r0, c]}        # c (r - r0)^2
+    other = draw(gen.form_leaf(["bornmayer", "morse", "polynomial", "constant", "exp_spline"]))
+
+    def single(b):
+        return {"ranges": [{"m": ">", "s": -2.0, "body": b}]}
+    args = [single(zero), single(other)]
+    if draw(st.booleans()):
+        args.reverse()
+    node = {"k": "mod", "m": "product", "args": args}
+    if draw(st.integers(0, 2)) == 0:
+        node = {"k": "mod", "m": "sum", "args": [single(node), single(draw(gen.form_leaf(["bornmayer", "polynomial"])))]}
+    rs = [r0, r0 + 0.25, r0 + 1.0] + ([r0 - 0.125] if r0 > 0.2 else [])
+    return {"kind": "expr", "leafkind": "regular0", "env": {"custom": [], "table": []}, "pd": single(node), "rs": rs,
+            "zero_factor": True}
+
+
 def _open_left(pd):
     """move every first range start to -2 so that forms regular at the origin are reached at r <= 0"""
     rgs = []
@@ -244,6 +270,7 @@ def strata(tier):
         ("potential_near_origin", _potential_origin_case(), 1),
         ("table_slope", _slope_case(), 1),
         ("expr:mixed_ranges", st.one_of(_mixed_ranges_case(False), _mixed_ranges_case(True)), 2),
+        ("expr:zero_factor", _zero_factor_case(), 1),
         ("expr:mixed_modifier", st.one_of(_mixed_modifier_case(False), _mixed_modifier_case(False), _mixed_modifier_case(True)), 2),
     ] + [("expr:units:" + f, _units_case(f), 0.2) for f in gen.UNIT_FORMS if f != "zero"]
 
@@ -353,6 +380,8 @@ def _check_expr(case):
     rs = list(case["rs"])
     if case.get("mixed"):
         cls.append("mixed_ranges")
+    if case.get("zero_factor"):
+        cls.append("factor_exactly_zero")
     if case.get("mixed_mod"):
         cls.append("mixed_modifier")
     if case["leafkind"] == "regular0":
